@@ -81,7 +81,8 @@ def main(argv=None):
     deadline = t0 + limit
     results, errors, timed_out = run_jobs(jobs, nproc=a.jobs, deadline=deadline, known=known,
                                           xval=P.get("xval", {"quick": 2, "thorough": 4})[a.tier],
-                                          chunk=P.get("chunk", 250), timeout_ms=P.get("timeout_ms", 20000), seed=seed, labels=P.get("labels"))
+                                          chunk=P.get("chunk", 250), timeout_ms=P.get("timeout_ms", 20000), seed=seed, labels=P.get("labels"),
+                                          second_solver_every=(P.get("second_solver_every", 25) if a.tier == "thorough" else P.get("second_solver_every_quick", 200)))
     labels = P.get("labels")  # None = every label of the harnesses belongs to the property
     exc_is_violation = P.get("exc_is_violation", False)
 
@@ -91,7 +92,7 @@ def main(argv=None):
         return labels is None or label in labels
 
     tot = dict(paths=0, feasible=0, infeasible=0, queries=0, solver_s=0.0, unknown=0, aborted=0, ob_queries=0, discharged=0,
-               trivially_true=0, xval_ok=0, forks=0)
+               trivially_true=0, xval_ok=0, forks=0, second_solver_unsat=0, second_solver_sat=0, second_solver_unknown=0, second_solver_error=0)
     reached, violations, known_hits, spurious, xfails, exc_paths, abort_reasons = {}, [], [], [], [], {}, {}
     functions, stubs, assumptions, samples, per_job = {}, set(), set(), [], []
     for k, r in results.items():
@@ -137,6 +138,8 @@ def main(argv=None):
     if spurious:
         s0 = spurious[0][1]
         inconclusive.append(f"{len(spurious)} model(s) did not replay on the real code (first: {s0['label']} {json.dumps(s0['replay'], default=str)[:300]})")
+    if tot["second_solver_sat"]:
+        inconclusive.append(f"second solver (cvc5) found a model for {tot['second_solver_sat']} obligation queries that z3 reported unsat")
     if xfails:
         inconclusive.append(f"{len(xfails)} path-model cross-validation mismatch(es) between the encoding and the real code: {json.dumps(xfails[0][1], default=str)[:500]}")
     if exc_paths and not exc_is_violation:
@@ -188,7 +191,9 @@ def main(argv=None):
             jobs=len(results), per_job=per_job[:60], paths=tot["paths"], feasible_paths=tot["feasible"], queries=tot["queries"],
             solver_s=round(tot["solver_s"], 2), unknown=tot["unknown"], aborted=tot["aborted"], abort_reasons=abort_reasons,
             reached_labels=reached, twin_and_xval_replays_ok=tot["xval_ok"], spurious_models=len(spurious),
-            known_findings_rederived=sorted(k for k in kseen if k), inconclusive=inconclusive, stubs=sorted(stubs),
+            known_findings_rederived=sorted(k for k in kseen if k),
+            second_solver=dict(solver="cvc5 (python wheel)", sampled_unsat_queries_rechecked=tot["second_solver_unsat"] + tot["second_solver_sat"] + tot["second_solver_unknown"] + tot["second_solver_error"],
+                               agree_unsat=tot["second_solver_unsat"], disagree_sat=tot["second_solver_sat"], no_answer_in_5s=tot["second_solver_unknown"], export_error=tot["second_solver_error"]), inconclusive=inconclusive, stubs=sorted(stubs),
             outside=P.get("outside", []), solver="z3 " + _z3v(),
         ),
         assumptions=sorted(assumptions) + list(P.get("assumptions", [])), wall_s=round(wall, 2), violations=len(seen))
